@@ -16,8 +16,10 @@ def wrapper_lemmas(chk, tier):
             continue
         nn = max(len(c.nodes_min), len(c.nodes_max))
         if nn > 1:
-            ls.append(xh.Lemma("wnode_%s" % name, [("k", "int"), ("maximal", "bool"), ("node", "int"), ("pos", "int")], ["return W.extra_at_node_ok(%r, k, maximal, node, pos)" % name], pre=["0 <= k < %d" % len(c.cands), "0 <= node < (%d if maximal else %d)" % (len(c.nodes_max), len(c.nodes_min)), "0 <= pos < 2"], meta={"site": "%s: undeclared key on one nested object node through its hand-written structure function" % name, "cls": name, "node": True}, cost=len(c.cands) * nn))
+            ls.append(xh.Lemma("wnode_%s" % name, [("k", "int"), ("maximal", "bool"), ("node", "int"), ("pos", "int")], ["return W.extra_at_node_ok(%r, k, maximal, node, pos)" % name], pre=["0 <= k < %d" % len(c.cands), "0 <= node < (%d if maximal else %d)" % (len(c.nodes_max), len(c.nodes_min)), "0 <= pos < 3"], meta={"site": "%s: undeclared key on one nested object node through its hand-written structure function" % name, "cls": name, "node": True}, cost=len(c.cands) * nn))
         ls.append(xh.Lemma("wrap_%s" % name, [("k", "int"), ("maximal", "bool"), ("pos", "int")], ["return W.extra_ok(%r, k, maximal, pos)" % name], pre=["0 <= k < %d" % len(c.cands), "0 <= pos < 2"], meta={"site": "%s: undeclared alias-like key through the hand-written wrapper of its structure function" % name, "cls": name}, cost=len(c.cands)))
+    if wraprt.SKIPPED:
+        chk.inconc("%d further classes have a hand-written wrapper around their structure function; the first %d are analysed" % (len(wraprt.SKIPPED), wraprt.MAX_WRAPPED))
     results, stats = xh.run(ls, ["from vlib import wraprt as W", "W.cases()"], timeout=300 if tier == "thorough" else 120, label="c15w")
     chk.ev.add_counts(xh.summarize(results))
     chk.ev.coverage["solver_seconds"] += stats["cpu_s"]
@@ -33,7 +35,7 @@ def wrapper_lemmas(chk, tier):
             base = dict(c.tmax if r.args["maximal"] else c.tmin)
             if l.meta.get("node"):
                 nodes = c.nodes_max if r.args["maximal"] else c.nodes_min
-                j = wraprt._with_extra_at(base, nodes[r.args["node"]], cand, ["alias-payload"], r.args["pos"] == 0)
+                j = wraprt._with_extra_at(base, nodes[r.args["node"]], cand, ["alias-payload"], {0: True, 1: False, 2: 2}[r.args["pos"]])
             else:
                 j = {cand: "alias-payload", **base} if r.args["pos"] == 0 else {**base, cand: "alias-payload"}
             code = dispatch_check._extra_code(base, j, c.name)
